@@ -37,7 +37,11 @@ def run_given(body, strategy, seed, max_examples, shrink=True):
     @given(strategy)
     def test(case):
         last["case"] = case
-        body(case)
+        try:
+            body(case)
+        except Violation as v:
+            last.setdefault("first", v)
+            raise
 
     try:
         test()
@@ -45,6 +49,13 @@ def run_given(body, strategy, seed, max_examples, shrink=True):
         return [v]
     except Unsatisfiable as e:
         raise HarnessError(f"generator unsatisfiable: {e}")
+    except Exception:
+        # an error inside Hypothesis while it was shrinking a failure that
+        # had already been observed (seen: ValueError from its interval
+        # sets): report the failure as first found, unshrunk
+        if "first" in last:
+            return [last["first"]]
+        raise
     return []
 
 
